@@ -17,9 +17,10 @@ RULE = ('bodies: boundary strings (1..70 chars, made of dashes, with repeating p
         'every body: all single cuts and all pairs of cuts (complete), byte-at-a-time, regular cuts for every size; plus Request.body buffering '
         'with every max_memfile_size and seeded short reads. Non-trivial = at least one cut falls inside a framing element (delimiter, CRLF after '
         'it, CRLFCRLF, final hyphens) or a look-alike; distinct = distinct (body, prefix length, cut positions).')
-REQUIRED = ['cut_inside_delimiter', 'cut_inside_start_boundary', 'cut_between_delimiter_and_crlf', 'cut_inside_delimiter_crlf', 'cut_inside_headers_end',
+PYOPT = {'quick': 1, 'thorough': 1}     # one unit of every kind is also served by an interpreter started with -O (assert statements compiled out)
+REQUIRED = ['units_run_under_python_-O', 'cut_inside_delimiter', 'cut_inside_start_boundary', 'cut_between_delimiter_and_crlf', 'cut_inside_delimiter_crlf', 'cut_inside_headers_end',
             'cut_between_final_hyphens', 'cut_after_closing_delimiter', 'cut_inside_epilogue', 'cut_inside_lookalike', 'cut_inside_headers',
-            'cut_inside_data', 'prefix_cases', 'invariant_checks', 'request_body_sweeps', 'byte_at_a_time', 'regular_cuts', 'double_cuts']
+            'cut_inside_data', 'prefix_cases', 'invariant_checks', 'request_body_sweeps', 'byte_at_a_time', 'regular_cuts', 'double_cuts', 'chunked_transfer_sweeps', 'short_transfer_chunk_beside_a_long_one']
 EXHAUSTIVE = {'quick': False, 'thorough': False,
               'quick_note': 'for each listed body: every prefix x every single cut and every pair of cuts is enumerated completely',
               'thorough_note': 'for each listed body: every prefix x every single cut and every pair of cuts is enumerated completely'}
@@ -330,6 +331,45 @@ def request_sweep(ctx, body, boundary, roles, rng):
                 return
 
 
+def chunked_sweep(ctx, body, boundary, rng):
+    """The same form delivered under chunked transfer framing: the division into transfer chunks (tiny ones, long ones, a tiny
+    one followed by a long one, sizes around powers of two) must not change the result either."""
+    import ombott
+    from vmon.wsgi import chunk_encode
+    big = (f'--{boundary}\r\nContent-Disposition: form-data; name="big"; filename="b.txt"\r\n\r\n'.encode('latin1')
+           + bytes(rng.choice(b'abcdefghij \n') for _ in range(rng.choice([300, 700, 1500]))) + b'\r\n')
+    for data in (body, big + body):
+        oracle = one_piece(boundary, data)
+        n = len(data)
+        patterns = [[1], [3, 200], [200, 3], [5, 127, 128, 129, 2, 300], [64, 1, 1, 256], [n], [max(1, n - 1), 1], [1, max(1, n - 1)], [7, 1000], [130, 4, 130, 4]]
+        patterns += [[rng.choice([rng.randint(1, 20), rng.randint(100, 400)]) for _ in range(rng.randint(2, 9))] for _ in range(10)]
+        for sizes in patterns:
+            enc = chunk_encode(data, sizes=sizes)
+            st = RecStream(enc, rng.choice(['full', ('rand', rng)]))
+            env = make_environ('POST', '/', stream=st, content_length=None, chunked=True, content_type=f'multipart/form-data; boundary={boundary}')
+            rq = ombott.Request(env, config={'max_memfile_size': rng.choice([64, 1024, 102400])})
+            ctx.count('chunked_transfer_sweeps')
+            if min(sizes) < 20 and max(sizes) >= 128:
+                ctx.count('short_transfer_chunk_beside_a_long_one')
+            ctx.case(None, nontrivial=True)
+            wit = {'unit': {'kind': 'note', 'boundary': boundary, 'body': data.decode('latin1'), 'transfer_chunk_sizes': sizes}}
+            try:
+                b = rq.body
+            except Exception as e:  # noqa
+                ctx.violation(f'request-body-raises-{type(e).__name__}:chunked-transfer', f'transfer chunk sizes {sizes}: {e!r} body {data[:80]!r}', wit)
+                return
+            m = getattr(b, 'ombott_markup', None)
+            got = result_of(m) if m is not None else None
+            b.seek(0)
+            if b.read() != data:
+                ctx.violation('chunked-transfer:stored-body-differs', f'transfer chunk sizes {sizes}', wit)
+                return
+            if got != oracle:
+                ctx.violation('result-depends-on-read-division:transfer-chunk-sizes',
+                              f'transfer chunk sizes {sizes} boundary {boundary!r} body {data[:120]!r}...: one piece {oracle}, chunked {got}', wit)
+                return
+
+
 def random_unit(ctx, unit):
     """Larger bodies: single cuts + random multi-cuts."""
     rng = ctx.rng
@@ -353,6 +393,8 @@ def random_unit(ctx, unit):
             compare(ctx, body, boundary, roles, L, cuts, one_piece(boundary, body[:L]) if L != n else oracle, 'random cuts')
         if made % 25 == 0:
             request_sweep(ctx, body, boundary, roles, rng)
+        if made % 6 == 0:
+            chunked_sweep(ctx, body, boundary, rng)
         if made % 40 == 1:
             ctx.sample({'boundary': boundary, 'body': body.decode('latin1')[:300], 'len': n})
 
